@@ -1,5 +1,5 @@
 #!/bin/bash
 # round3.sh ID NAME CHECK... : confirm a round-3 seeded change and run the given checks against it
 id=$1; name=$2; shift; shift
-WT_PREFIX=/tmp/wt3- OUT_DIR=/tmp/mut3-out /verif/vlib/tools/confirm_mut.sh $id $name 2>&1 | tail -2
+WT_PREFIX=${WT_PREFIX:-/tmp/wt4-} OUT_DIR=${OUT_DIR:-/tmp/mut4-out} /verif/vlib/tools/confirm_mut.sh $id $name 2>&1 | tail -2
 [ -e /verif/seeded/$name/patch.diff ] && /verif/vlib/tools/trymut.sh $name "$@" | grep -E "===|VIOLATION|quick:" | awk '/VIOLATION/{n++; if(n<=2)print; next}{print}'
